@@ -77,8 +77,13 @@ class World:
         for dirpath, dirnames, filenames in os.walk(base):
             dirnames.sort()
             rel_dir = os.path.relpath(dirpath, base)
-            if rel_dir != ".":
-                out[rel_dir + "/"] = ("d", 0, 0, "")
+            # a directory's mtime moves when an entry is created or removed in it, so a file that existed only
+            # *during* an operation (created and deleted again) still shows up as a modified directory
+            try:
+                dm = os.lstat(dirpath).st_mtime_ns
+            except OSError:
+                dm = -1
+            out["./" if rel_dir == "." else rel_dir + "/"] = ("d", 0, dm, "")
             for fn in sorted(filenames):
                 p = os.path.join(dirpath, fn)
                 rel = os.path.normpath(os.path.join(rel_dir, fn))
